@@ -11,7 +11,7 @@ Require Import Celma.Common.Res Celma.ArgH.Key Celma.ArgH.Table Celma.ArgH.Table
     handler-constraint states of all other members are untouched - for any
     number of members. *)
 Theorem C08_element_goes_to_first_owner :
-  forall e cur pre c post spre s spost s1 i1,
+  forall e cur, is_value e = false -> forall pre c post spre s spost s1 i1,
     length pre = length spre ->
     Forall2 (fun ci si => exists si', eval_single ci si false e cur = Ok (AUnknown, si', cur)) pre spre ->
     eval_single c s false e cur = Ok (AConsumed, s1, i1) ->
@@ -23,7 +23,7 @@ Proof. exact offer_first_owner. Qed.
 Print Assumptions C08_element_goes_to_first_owner.
 
 Theorem C08_unknown_to_all_is_rejected :
-  forall e cur cs ss,
+  forall e cur, is_value e = false -> forall cs ss,
     Forall2 (fun ci si => exists si', eval_single ci si false e cur = Ok (AUnknown, si', cur)) cs ss ->
     exists ss', offer false cs ss e cur = Ok (AUnknown, ss', cur).
 Proof. exact offer_all_unknown. Qed.
@@ -60,6 +60,18 @@ Theorem C08_pinned_group_refuted :
   eval_group false false grp3 grp3_inits argv_l1x2 = Err ERuntime.
 Proof. exact pinned_group_refuted. Qed.
 Print Assumptions C08_pinned_group_refuted.
+
+(** a free value goes to the multi-value argument identified last, also when an
+    earlier member owns a positional argument (repaired: "fix: ... offered
+    first to the handler of the argument identified last"); second component:
+    the member-order behaviour of the pinned tree *)
+Theorem C08_free_value_routing :
+  (exists ss, eval_group false false grp5 grp5_inits argv_l12 = Ok ss /\
+              map (fun s => map val (arts s)) ss = [[VStr []]; [VInts [1; 2]%Z]]) /\
+  (exists ss, eval_group true false grp5 grp5_inits argv_l12 = Ok ss /\
+              map (fun s => map val (arts s)) ss = [[VStr [50%N]]; [VInts [1%Z]]]).
+Proof. exact group_free_value_order. Qed.
+Print Assumptions C08_free_value_routing.
 
 (** Known finding, recorded in known_findings.json (group-abbrev-per-member):
     the full statement "group evaluation = single handler owning all
